@@ -692,6 +692,28 @@ def handleBody (cfg : Cfg) (fs : Call → Ans) (ctx : Ctx) (calls0 : List Call)
   | _ =>
     errRes cfg unique (calls0) [] (.os ENOSYS)
 
+/-! ### notifications (server → kernel, /dev/fuse only) -/
+
+/-- a notification is written piecewise into a buffered writer of capacity `cap` and committed
+    with one `write`; any piece that does not fit fails the call before anything is sent -/
+def notifyMsg (cap : Nat) (pieces : List Bytes) : Out × Ret :=
+  match writeChunks cap 0 pieces with
+  | (_, true) => ({}, .err .failedToWrite)
+  | (bs, false) => (if bs.isEmpty then {} else { sys := [bs] }, .ok bs.length)
+
+/-- `Server::notify_inval_entry(parent, name)`; `name` without the NUL -/
+def notifyInvalEntry (cap parent : Nat) (name : Bytes) : Out × Ret :=
+  notifyMsg cap [outHeader (OUT_HDR + 16 + (name.length + 1)) 3 0,
+                 le64 parent ++ le32 name.length ++ le32 0, name ++ [0]]
+
+/-- `Server::notify_inval_inode(ino, off, len)` -/
+def notifyInvalInode (cap ino off len : Nat) : Out × Ret :=
+  notifyMsg cap [outHeader (OUT_HDR + 24) 2 0, le64 ino ++ le64 off ++ le64 len]
+
+/-- `Server::notify_resend()` -/
+def notifyResend (cap : Nat) : Out × Ret :=
+  notifyMsg cap [outHeader OUT_HDR 7 0]
+
 def hdrLenOf (req : Bytes) : Nat := u32At req 0
 def opOf (req : Bytes) : Nat := u32At req 4
 def uniqueOf (req : Bytes) : Nat := u64At req 8
